@@ -30,7 +30,8 @@ def gcdPrim (a b : Nat) : Except PanicKind Nat :=
   if a = 0 ∨ b = 0 then
     if a = 0 ∧ b = 0 then .error .gcdZeroZero else .ok (a ||| b)
   else
-    let shift := trailingZeros (a ||| b)
+    -- `(a | b).trailing_zeros()` = the smaller of the two trailing-zero counts
+    let shift := min (trailingZeros a) (trailingZeros b)
     let a := a / 2 ^ trailingZeros a
     let b := b / 2 ^ trailingZeros b
     if bitLen b > bitLen a + 3 then
